@@ -958,3 +958,129 @@ Proof.
 Qed.
 
 End Live.
+
+(* ================================================================== *)
+(* Wait-freedom: a thread that is scheduled often enough answers all its queries, whatever
+   the other threads do (no step of one thread can block or undo the progress of another). *)
+Definition pc_left (cfg : config) (p : pc) : nat :=
+  match p with
+  | PIdle => 0
+  | PALookup _ => c_more cfg + 9
+  | PAStore _ _ => c_more cfg + 8
+  | PRHash _ _ => c_more cfg + 7
+  | PRAlloc _ _ _ => c_more cfg + 6
+  | PRTrial _ _ _ _ n => n + 5
+  | PRPublish _ _ _ _ _ => 4
+  | PRCacheOld _ _ _ => 3
+  | PRCacheSet _ _ _ => 2
+  | PRFetch _ _ => 1
+  | PRCacheGet _ _ => 1
+  | PHTrial _ _ n => n + 1
+  end.
+
+(* upper bound on the number of steps thread th still needs *)
+Definition steps_left (cfg : config) (th : thread) : nat :=
+  pc_left cfg (t_pc th) + length (t_todo th) * (c_more cfg + 10).
+
+Lemma steps_left_finished cfg th : steps_left cfg th = 0 <-> finished th = true.
+Proof.
+  unfold steps_left, finished. destruct (t_pc th); cbn; destruct (t_todo th); cbn; split; intros H;
+    try reflexivity; try discriminate; try lia.
+Qed.
+
+Lemma loop_ends_zero orc q o st : loop_ends orc q o st 0 = true.
+Proof. reflexivity. Qed.
+
+Lemma step_decreases cfg orc st th st' th' :
+  finished th = false -> step_pc cfg orc st th = (st', th') ->
+  steps_left cfg th' < steps_left cfg th.
+Proof.
+  intros Hf H. unfold step_pc in H. unfold steps_left at 2.
+  destruct (t_pc th) eqn:Epc.
+  - destruct (t_todo th) as [|q rest] eqn:Et.
+    + unfold finished in Hf. rewrite Epc, Et in Hf. discriminate.
+    + destruct (c_mode cfg); try destruct (o_hard orc q); try destruct (alloc_h st);
+        inversion H; subst; clear H; unfold steps_left; cbn; lia.
+  - destruct (aget _ _); [|destruct (c_mode cfg); [destruct (alloc_h st)|destruct (alloc_h st)|destruct (alloc_r st)|destruct (alloc_h st)|destruct (alloc_h st)]];
+      inversion H; subst; clear H; unfold steps_left, dispatch; cbn; destruct (c_mode cfg); cbn; lia.
+  - inversion H; subst; clear H; unfold steps_left, dispatch; cbn; destruct (c_mode cfg); cbn; lia.
+  - destruct (nth_error _ _); [destruct (_ || _); [destruct (c_cache_only cfg)|]|];
+      inversion H; subst; clear H; unfold steps_left; cbn; lia.
+  - destruct (alloc_h st). inversion H; subst; clear H. unfold steps_left; cbn; lia.
+  - destruct n as [|n].
+    + rewrite loop_ends_zero in H. destruct (tree_of _ _); inversion H; subst; clear H; unfold steps_left; cbn; lia.
+    + destruct (loop_ends _ _ _ _ _); [destruct (tree_of _ _)|];
+        inversion H; subst; clear H; unfold steps_left; cbn; lia.
+  - destruct (c_ow cfg); [| |destruct m]; inversion H; subst; clear H; unfold steps_left; cbn; lia.
+  - destruct (c_call cfg); inversion H; subst; clear H; unfold steps_left; cbn; lia.
+  - destruct (nth_error _ _); [destruct (aget _ _); [destruct (score_lt _ _)|]|];
+      inversion H; subst; clear H; unfold steps_left; cbn; lia.
+  - destruct (nth_error _ _); [destruct (aget _ _)|];
+      inversion H; subst; clear H; unfold steps_left; cbn; lia.
+  - destruct (nth_error _ _); [destruct (aget _ _)|];
+      inversion H; subst; clear H; unfold steps_left; cbn; lia.
+  - destruct n as [|n].
+    + rewrite loop_ends_zero in H. inversion H; subst; clear H; unfold steps_left; cbn; lia.
+    + destruct (loop_ends _ _ _ _ _); inversion H; subst; clear H; unfold steps_left; cbn; lia.
+Qed.
+
+Lemma nth_error_upd_nth_const {A} (l : list A) i j y :
+  nth_error (upd_nth i (fun _ => y) l) j =
+  if Nat.eqb i j then match nth_error l j with Some _ => Some y | None => None end else nth_error l j.
+Proof.
+  destruct (Nat.eqb i j) eqn:E.
+  - apply Nat.eqb_eq in E. subst. rewrite nth_error_upd_nth_same. destruct (nth_error l j); reflexivity.
+  - apply Nat.eqb_neq in E. now apply nth_error_upd_nth_other.
+Qed.
+
+Lemma run_progress cfg orc : forall sched st ths st' ths' tr i th,
+  run cfg orc sched st ths = (st', ths', tr) -> nth_error ths i = Some th ->
+  exists th', nth_error ths' i = Some th' /\
+              steps_left cfg th' <= steps_left cfg th - count_occ Nat.eq_dec sched i.
+Proof.
+  induction sched as [|j sched IH]; intros st ths st' ths' tr i th Hrun Hi; cbn in Hrun.
+  - inversion Hrun; subst. exists th. split; auto. cbn. lia.
+  - cbn [count_occ].
+    destruct (nth_error ths j) as [thj|] eqn:Ej.
+    + destruct (finished thj) eqn:Ef.
+      * destruct (IH _ _ _ _ _ _ _ Hrun Hi) as (th' & Hn & Hle). exists th'. split; auto.
+        destruct (Nat.eq_dec j i) as [->|Hne]; [|exact Hle].
+        rewrite Hi in Ej. inversion Ej; subst.
+        apply (proj2 (steps_left_finished cfg _)) in Ef. lia.
+      * destruct (step_pc cfg orc st thj) as [st1 th1] eqn:Es.
+        destruct (run cfg orc sched st1 _) as [[st2 ths2] tr2] eqn:Er.
+        inversion Hrun; subst; clear Hrun.
+        destruct (Nat.eq_dec j i) as [->|Hne].
+        -- rewrite Hi in Ej. inversion Ej; subst.
+           assert (Hi1 : nth_error (upd_nth i (fun _ => th1) ths) i = Some th1).
+           { rewrite nth_error_upd_nth_const, Nat.eqb_refl, Hi. reflexivity. }
+           destruct (IH _ _ _ _ _ _ _ Er Hi1) as (th' & Hn & Hle). exists th'. split; auto.
+           pose proof (step_decreases _ _ _ _ _ _ Ef Es). lia.
+        -- assert (Hi1 : nth_error (upd_nth j (fun _ => th1) ths) i = Some th).
+           { rewrite nth_error_upd_nth_other; auto. }
+           destruct (IH _ _ _ _ _ _ _ Er Hi1) as (th' & Hn & Hle). exists th'. split; auto.
+    + destruct (IH _ _ _ _ _ _ _ Hrun Hi) as (th' & Hn & Hle). exists th'. split; auto.
+      destruct (Nat.eq_dec j i) as [->|Hne]; [congruence|exact Hle].
+Qed.
+
+(* a thread scheduled at least steps_left times has answered all its queries *)
+Theorem wait_free cfg orc sched st ths st' ths' tr i th :
+  run cfg orc sched st ths = (st', ths', tr) -> nth_error ths i = Some th ->
+  steps_left cfg th <= count_occ Nat.eq_dec sched i ->
+  exists th', nth_error ths' i = Some th' /\ finished th' = true /\ t_todo th' = [] /\
+              rev (map fst (t_done th')) = program th.
+Proof.
+  intros Hrun Hi Hc.
+  destruct (run_progress _ _ _ _ _ _ _ _ _ _ Hrun Hi) as (th' & Hn & Hle).
+  exists th'. split; auto.
+  assert (Hf : finished th' = true) by (apply (proj1 (steps_left_finished cfg _)); lia).
+  split; auto.
+  pose proof (run_program _ _ _ _ _ _ _ _ Hrun) as HP.
+  assert (Hp : program th' = program th).
+  { clear - HP Hi Hn. revert i Hi Hn. induction HP; intros [|i] Hi Hn; cbn in *; try discriminate.
+    - inversion Hi; inversion Hn; subst. congruence.
+    - eauto. }
+  unfold finished in Hf. unfold program in Hp at 1.
+  destruct (t_pc th'); try discriminate. destruct (t_todo th'); try discriminate.
+  split; auto. cbn in Hp. now rewrite app_nil_r in Hp.
+Qed.
